@@ -128,6 +128,9 @@ class IVFCLevel4Reader(RawIOBase):
 
     @_raise_if_level_closed
     def seek(self, offset: int, whence: int = 0) -> int:
+        # noinspection PyProtectedMember
+        if self._tree._fp.closed:
+            raise ValueError('I/O operation on closed file')
         if whence == 0:
             if offset < 0:
                 raise ValueError(f'negative seek value {offset}')
